@@ -117,7 +117,7 @@ pub fn family_source(fam: &str, k: usize) -> String {
 }
 
 /// One-hole contexts (hole and result of type i64; `I` is the nesting index, so binders are distinct).
-pub const CONTEXTS: [(&str, &str); 15] = [
+pub const CONTEXTS: [(&str, &str); 21] = [
     ("let_if", "let v@: i64 = if n == @ { n + @ } else { n - @ }; (#) + v@"),
     ("let_case", "let v@: i64 = l.case[i64] { Nil => @, Cons(h, t) => h + @ }; (#) + v@"),
     ("if_then", "if n == @ { # } else { @ }"),
@@ -133,6 +133,14 @@ pub const CONTEXTS: [(&str, &str); 15] = [
     ("let_if_data_case", "let o@: Tri = if n == @ { T0 } else { T1(@) }; o@.case { T0 => @, T1(a@) => #, T2(a@, b@) => @ }"),
     ("let_if_codata_ap", "let f@: Fun[i64, i64] = if n == @ { new { ap(q) => q } } else { new { ap(q) => q + @ } }; f@.ap[i64, i64](#)"),
     ("print_seq", "(println_i64(@); #)"),
+    // a branching `let` whose continuation is directly a call / destructor / constructor+match /
+    // print / goto (every statement kind as the head of a continuation that has to be shared)
+    ("let_if_then_call", "let v@: i64 = if n == @ { n + @ } else { n - @ }; add(v@, #)"),
+    ("let_case_then_call", "let v@: i64 = l.case[i64] { Nil => @, Cons(h, t) => h + @ }; add(v@, #)"),
+    ("let_if_then_dtor", "let v@: i64 = if n == @ { 1 } else { 2 }; (new { ap(q@) => q@ + v@ }).ap[i64, i64](#)"),
+    ("let_if_then_ctor_case", "let v@: i64 = if n == @ { 1 } else { 2 }; Cons(v@, Nil).case[i64] { Nil => @, Cons(h@, t@) => h@ + (#) }"),
+    ("let_if_then_print", "let v@: i64 = if n == @ { 1 } else { 2 }; (println_i64(v@); #)"),
+    ("let_if_then_goto", "label k@ { let v@: i64 = if n == @ { 1 } else { 2 }; goto k@ (v@ + (#)) }"),
 ];
 
 /// `k` applications of the contexts `a, b, a, b, ...` around a leaf.
